@@ -127,6 +127,10 @@ func resampleEdgeCases(ls orb.LineString, totalPoints int) (orb.LineString, bool
 
 // precomputeDistances precomputes the total distance and intermediate distances.
 func precomputeDistances(ls orb.LineString, df orb.DistanceFunc) (float64, []float64) {
+	if len(ls) == 0 {
+		return 0, nil
+	}
+
 	total := 0.0
 	dists := make([]float64, len(ls)-1)
 	for i := 0; i < len(ls)-1; i++ {
